@@ -32,6 +32,13 @@
 // память для блобов выделяется страницами
 #define BLOB_PAGE_SIZE 1024
 
+// [verification hook] exact-size blobs: no page slack behind the blob,
+// so that sanitizers see any overrun of a computed keep/deep size
+#ifdef BEE2_VERIF
+#undef BLOB_PAGE_SIZE
+#define BLOB_PAGE_SIZE 1
+#endif
+
 // требуется страниц
 #define blobPageCount(size)\
 	(((size) + sizeof(size_t) + BLOB_PAGE_SIZE - 1) / BLOB_PAGE_SIZE)
